@@ -627,13 +627,34 @@ with script := mkScript
   (sc_cpw : list (list cact)) (* what the k-th checkpoint evaluation does first (nothing beyond the list) *)
   (sc_work : list wact)       (* what work_fn does before it returns / raises *)
   (sc_work_raises : bool)
-  (sc_validate : vfn).
+  (sc_validate : vfn)
+  (sc_val : Z).               (* WHICH Python objects the callbacks of this call use: the exception object a
+                                 raising checkpoint / work function / validator raises (with a message, without
+                                 arguments, a bare assert, KeyError(), StopIteration(), a falsy one, one of the
+                                 system's own error classes, one whose __str__ itself raises ...), the falsy object a rejecting validator returns
+                                 (False, 0, None, "" ...), the object work_fn returns.  An index into the harness's
+                                 value tables, opaque here: execute_operation only str()s the exception (falling back
+                                 to the class name when that raises: cc45a69), tests the verdict for truth and
+                                 passes the result on, so nothing below reads this field
+                                 ([with_val] / c14_callback_values_irrelevant) *)
 
-Definition sc_cp (sc : script) := match sc with mkScript x _ _ _ _ => x end.
-Definition sc_cpw (sc : script) := match sc with mkScript _ x _ _ _ => x end.
-Definition sc_work (sc : script) := match sc with mkScript _ _ x _ _ => x end.
-Definition sc_work_raises (sc : script) := match sc with mkScript _ _ _ x _ => x end.
-Definition sc_validate (sc : script) := match sc with mkScript _ _ _ _ x => x end.
+Definition sc_cp (sc : script) := match sc with mkScript x _ _ _ _ _ => x end.
+Definition sc_cpw (sc : script) := match sc with mkScript _ x _ _ _ _ => x end.
+Definition sc_work (sc : script) := match sc with mkScript _ _ x _ _ _ => x end.
+Definition sc_work_raises (sc : script) := match sc with mkScript _ _ _ x _ _ => x end.
+Definition sc_validate (sc : script) := match sc with mkScript _ _ _ _ x _ => x end.
+Definition sc_val (sc : script) := match sc with mkScript _ _ _ _ _ x => x end.
+
+(* the same script with the value index [k] everywhere, also in the nested calls of its work function *)
+Fixpoint with_val (k : Z) (sc : script) : script :=
+  match sc with
+  | mkScript cp cpw work wr v _ =>
+      mkScript cp cpw
+        (map (fun a => match a with
+                       | WExec o p reqs sc' => WExec o p reqs (with_val k sc')
+                       | _ => a
+                       end) work) wr v k
+  end.
 
 Definition cact_wact (a : cact) : wact :=
   match a with
